@@ -1,0 +1,54 @@
+//go:build verif
+
+package evaluator
+
+import (
+	"fmt"
+	"sort"
+)
+
+// This file is compiled only with the build tag "verif". It lets an
+// external conformance harness observe evaluator steps.
+
+// VerifTrace, when set, receives one event per instrumented step.
+var VerifTrace func(ev string, fields map[string]any)
+
+func verifOn() bool { return VerifTrace != nil }
+
+func verifMap(ev string, m *mapVal, key string) {
+	if VerifTrace == nil {
+		return
+	}
+	order := append([]string{}, (*m.Order)...)
+	keys := make([]string, 0, len(m.Pairs))
+	for k := range m.Pairs {
+		keys = append(keys, k)
+	}
+	sort.Strings(keys)
+	VerifTrace(ev, map[string]any{"map": fmt.Sprintf("%p", m.Order), "key": key, "order": order, "keys": keys})
+}
+
+func verifEv(ev string, s string) {
+	if VerifTrace == nil {
+		return
+	}
+	VerifTrace(ev, map[string]any{"s": s})
+}
+
+// VerifGlobals returns repr and dynamic type description of all globals.
+func (e *Evaluator) VerifGlobals() map[string]string {
+	out := map[string]string{}
+	for name, v := range e.global.values {
+		out[name] = v.Repr()
+	}
+	return out
+}
+
+// VerifScopeDepth returns the number of scopes on the scope stack.
+func (e *Evaluator) VerifScopeDepth() int {
+	n := 0
+	for s := e.scope; s != nil; s = s.outer {
+		n++
+	}
+	return n
+}
